@@ -7,6 +7,7 @@ package values
 
 import (
 	"fmt"
+	"math"
 
 	configapi "github.com/onosproject/onos-api/go/onos/config/v3"
 
@@ -40,6 +41,9 @@ func GnmiTypedValueToNativeType(gnmiTv *gnmi.TypedValue, modelPath *configapi.Re
 	case *gnmi.TypedValue_DecimalVal:
 		return configapi.NewTypedValueDecimal(v.DecimalVal.Digits, uint8(v.DecimalVal.Precision)), nil
 	case *gnmi.TypedValue_FloatVal:
+		if math.IsNaN(float64(v.FloatVal)) {
+			return nil, fmt.Errorf("float value NaN is not supported")
+		}
 		return configapi.NewTypedValueFloat(float64(v.FloatVal)), nil
 	case *gnmi.TypedValue_LeaflistVal:
 		var typeOpt0 uint64
